@@ -111,8 +111,40 @@ class Ctx:
                 else:
                     res["axioms"][name] = b.strip().split("\n")[1:]
             res["printed"] = res.get("printed", []) + printed
+        if self.tier == "thorough" and not res["failed"]:
+            res["coqchk"] = self.coqchk(files)
+            if not res["coqchk"]["ok"]:
+                res["failed"] = "coqchk rejects the compiled development: " + res["coqchk"]["summary"][-1500:]
         self.proof = res
         return res
+
+    def coqchk(self, files):
+        """Thorough tier: re-check the compiled property files and everything they depend on with
+        the independent checker coqchk (-o prints the axioms).  One run per state of the .vo files."""
+        h = hashlib.md5()
+        for f in sorted(glob.glob(os.path.join(COQ, "**", "*.vo"), recursive=True)):
+            h.update(f.encode())
+            h.update(hashlib.md5(open(f, "rb").read()).digest())
+        mods = ["Tinode." + f[:-2].replace("/", ".") for f in files]
+        cdir = os.path.join(BUILD, "coqchk")
+        os.makedirs(cdir, exist_ok=True)
+        cache = os.path.join(cdir, "%s-%s.txt" % (self.pid, h.hexdigest()[:16]))
+        cmd = "coqchk -silent -o -Q . Tinode " + " ".join(mods)
+        t0 = time.time()
+        if os.path.exists(cache):
+            out, cached = open(cache).read(), True
+        else:
+            rc, out = sh("timeout 5400 " + cmd, cwd=COQ)
+            out = "exit=%d\n" % rc + out
+            cached = False
+            if rc == 0:
+                open(cache, "w").write(out)
+        ok = out.startswith("exit=0")
+        m = re.search(r"\* Axioms:(.*?)\n\s*\n\* Constants/Inductives relying on type-in-type", out, re.S)
+        axioms = " ".join(m.group(1).split()) if m else "?"
+        bad = ok and not ("type-in-type: <none>" in out and "unsafe (co)fixpoints: <none>" in out and "positivity is assumed: <none>" in out)
+        return {"ok": ok and not bad, "cmd": cmd, "axioms": axioms, "cached": cached, "wall_s": round(time.time() - t0, 1),
+                "summary": out[-1200:]}
 
     def proof_ok(self):
         p = self.proof
@@ -231,6 +263,8 @@ class Ctx:
                 "theorems": p["theorems"],
                 "print_assumptions": {"closed_under_global_context": p["closed"], "axioms": p["axioms"]},
             })
+            if p.get("coqchk"):
+                cov["coqchk"] = {k: p["coqchk"][k] for k in ("ok", "cmd", "axioms", "cached", "wall_s")}
         cov.setdefault("trusted_base", [])
         cov["trusted_base"] = KERNEL_TB + cov["trusted_base"]
         cov["known_findings_hit"] = sorted(hit.keys())
